@@ -89,6 +89,8 @@ def witness_fn(tier):
     def witness(group, names, seed):
         from harness import lawsearch
         budget = 150 if tier == "quick" else 1500
+        if group.endswith((":frame", ":globals-frame")):
+            return lawsearch.hidden_state_search(seed, 25 if tier == "quick" else 250)
         if group.startswith(("undecided:Cacheable", "Cacheable:")):
             for cls in ("Dataset", "Option", "Switch", "FunctionApplication", "WithOptions", "Cached"):
                 w = lawsearch.search(cls, "FP", seed, budget)
